@@ -9,24 +9,24 @@ package pogreb
 //@ spec func segOK(s *segment) bool = s != nil && extOf(s.name) == ".psg" && s.file != nil && s.meta != nil && fileInv(s.file) && s.file.size >= 512 && s.file.size <= 0xffffffff && s.id < 32767
 
 // TABLE: every entry is a well-formed segment stored under its own id whose file is in the directory under its name
-//@ spec func dlTable(dl *datalog) bool = forall i int :: 0 <= i && i < 32767 && dl.segments[i] != nil ==> segOK(dl.segments[i]) && int(dl.segments[i].id) == i && dirFid[dl.opts.FileSystem][dl.segments[i].name] == fidOf[dl.segments[i].file.File]
+//@ spec func opaque dlTable(dl *datalog) bool = forall i int :: 0 <= i && i < 32767 && dl.segments[i] != nil ==> segOK(dl.segments[i]) && int(dl.segments[i].id) == i && dirFid[dl.opts.FileSystem][dl.segments[i].name] == fidOf[dl.segments[i].file.File]
 
 // entries do not share objects, handles or files
-//@ spec func dlDistinct(dl *datalog) bool = forall i int, j int :: 0 <= i && i < 32767 && 0 <= j && j < 32767 && i != j && dl.segments[i] != nil && dl.segments[j] != nil ==> dl.segments[i].file != dl.segments[j].file && dl.segments[i].meta != dl.segments[j].meta && dl.segments[i].file.File != dl.segments[j].file.File && fidOf[dl.segments[i].file.File] != fidOf[dl.segments[j].file.File]
+//@ spec func opaque dlDistinct(dl *datalog) bool = forall i int, j int :: 0 <= i && i < 32767 && 0 <= j && j < 32767 && i != j && dl.segments[i] != nil && dl.segments[j] != nil ==> dl.segments[i].file != dl.segments[j].file && dl.segments[i].meta != dl.segments[j].meta && dl.segments[i].file.File != dl.segments[j].file.File && fidOf[dl.segments[i].file.File] != fidOf[dl.segments[j].file.File]
 
 // CUR: the current segment is an entry of the table (hence open), or it was sealed and removed by
 // compaction, in which case it is marked full so that the next write replaces it before using it.
 //@ spec func dlCurOK(dl *datalog) bool = dl.curSeg != nil && dl.curSeg.meta != nil && dl.curSeg.file != nil && dl.curSeg.file.File != nil && dl.curSeg.id < 32767 && (dl.segments[dl.curSeg.id] == dl.curSeg || dl.curSeg.meta.Full)
 
 // NEWEST: only the current segment accepts writes; every other segment of the table is marked full
-//@ spec func dlOthersFull(dl *datalog) bool = forall i int :: 0 <= i && i < 32767 && dl.segments[i] != nil && dl.segments[i] != dl.curSeg ==> dl.segments[i].meta.Full
+//@ spec func opaque dlOthersFull(dl *datalog) bool = forall i int :: 0 <= i && i < 32767 && dl.segments[i] != nil && dl.segments[i] != dl.curSeg ==> dl.segments[i].meta.Full
 
-//@ spec func dlInv(dl *datalog) bool = dl != nil && dl.opts != nil && dl.opts.FileSystem != nil && dlTable(dl) && dlDistinct(dl) && dlCurOK(dl) && dlOthersFull(dl)
+//@ spec func opaque dlInv(dl *datalog) bool = dl != nil && dl.opts != nil && dl.opts.FileSystem != nil && dlTable(dl) && dlDistinct(dl) && dlCurOK(dl) && dlOthersFull(dl)
 
 // SEALED-DURABLE (C06): every segment of the table that is not the current one is durable up to its length
 //@ spec func segDurable(s *segment) bool = fDur[fidOf[s.file.File]] == fLen[fidOf[s.file.File]]
-//@ spec func dlSealedDurable(dl *datalog) bool = forall i int :: 0 <= i && i < 32767 && dl.segments[i] != nil && dl.segments[i] != dl.curSeg ==> segDurable(dl.segments[i])
-//@ spec func dlAllDurable(dl *datalog) bool = forall i int :: 0 <= i && i < 32767 && dl.segments[i] != nil ==> segDurable(dl.segments[i])
+//@ spec func opaque dlSealedDurable(dl *datalog) bool = forall i int :: 0 <= i && i < 32767 && dl.segments[i] != nil && dl.segments[i] != dl.curSeg ==> segDurable(dl.segments[i])
+//@ spec func opaque dlAllDurable(dl *datalog) bool = forall i int :: 0 <= i && i < 32767 && dl.segments[i] != nil ==> segDurable(dl.segments[i])
 
 //@ func (dl *datalog) sync() (err error) [C06,C15]
 //@   requires inv: dlInv(dl)
